@@ -392,6 +392,8 @@ def _source_arg(w, data: bytes, a: dict, key="src", fname="file.bin"):
         p = os.path.join(w_scratch(), name)
         with open(p, "wb") as f:
             f.write(data)
+        from .disk import _stamp
+        _stamp(p)       # file times are simulated storage state too (whole seconds of the simulated clock)
         return p, p
     return SimSource(data, pos=s.get("pos", 0), fault=fault if fault and fault.get("kind") != "missing" else None,
                      counters=w.faults), None
@@ -1436,6 +1438,8 @@ def ev_clobber_source(w, ev):
     else:
         with open(deck.src_path, "wb") as f:
             f.write(b"not a package any more")
+        from .disk import _stamp
+        _stamp(deck.src_path)
     w.faults.hit("source_file_clobbered_" + how)
     return "ok"
 
